@@ -58,6 +58,10 @@ func WithLayerAddTar(rdr io.Reader, mt string, platforms []platform.Platform) Op
 				return nil
 			}
 			if len(platforms) > 0 {
+				if dm.config == nil || dm.config.oc == nil {
+					// not an image with a platform (artifact or attestation manifest)
+					return nil
+				}
 				p := dm.config.oc.GetConfig().Platform
 				found := false
 				for _, pe := range platforms {
@@ -349,7 +353,7 @@ func WithLayerReproducible() Opts {
 func WithLayerRmCreatedBy(re regexp.Regexp) Opts {
 	return func(dc *dagConfig, dm *dagManifest) error {
 		dc.stepsManifest = append(dc.stepsManifest, func(c context.Context, rc *regclient.RegClient, rSrc, rTgt ref.Ref, dm *dagManifest) error {
-			if dm.m.IsList() || dm.config.oc == nil {
+			if dm.m.IsList() || dm.config == nil || dm.config.oc == nil {
 				return nil
 			}
 			if len(dm.layers) == 0 {
@@ -399,7 +403,7 @@ func WithLayerRmCreatedBy(re regexp.Regexp) Opts {
 func WithLayerRmIndex(index int) Opts {
 	return func(dc *dagConfig, dm *dagManifest) error {
 		dc.stepsManifest = append(dc.stepsManifest, func(c context.Context, rc *regclient.RegClient, rSrc, rTgt ref.Ref, dm *dagManifest) error {
-			if !dm.top || dm.m.IsList() || dm.config.oc == nil {
+			if !dm.top || dm.m.IsList() || dm.config == nil || dm.config.oc == nil {
 				return fmt.Errorf("remove layer by index requires v2 image manifest")
 			}
 			if len(dm.layers) == 0 {
